@@ -6,7 +6,7 @@
    [total_chunks items < 65536] is the u16 chunk counter guard (beyond it the Rust panics in the
    debug profile: the model's Crash). *)
 From Flipdot Require Import Tactics.
-From Flipdot Require Import Base Message Page SignType VSign Controller ProtoSpec ControllerP.
+From Flipdot Require Import Base Message Page SignType VSign Controller ProtoSpec ControllerP SourceP.
 Local Open Scope N_scope.
 
 (* --- examples: the definitions compute what one expects, the hypotheses are satisfiable --- *)
@@ -137,3 +137,28 @@ Theorem C09_crash_only_beyond_16bit : forall a op items success failure script,
   snd (run_script (transfer a op items success failure) script) <> Crashed.
 Proof. exact C09_crash_only_beyond_16bit_lemma. Qed.
 Print Assumptions C09_crash_only_beyond_16bit.
+
+(* --- page sources --- *)
+(* send_pages takes an iterator.  The model of an iterator that itself talks on the bus before it yields each page is
+   [send_pages_with] (model/Controller.v); one that holds no conversation is the plain list of pages: the two programs
+   are bisimilar ([SourceP.peq]: the same sends in the same order, continuing alike), hence run alike on every script and
+   on every bus. *)
+Example C09_ex_source :
+  run_script (send_pages_with 3 [([CopShutDown 7], page_new 1 2 8); ([], page_new 2 2 8)])
+    [Rep (Some (AckOperation 3 ReceivePixels)); Rep None; Rep None; Rep None; Rep None;
+     Rep (Some (ReportState 3 PixelsReceived)); Rep None; Rep (Some (ReportState 3 PageLoaded))]
+  = ([RequestOperation 3 ReceivePixels; Goodbye 7; SendData 0 (p_bytes (page_new 1 2 8));
+      SendData 0 (p_bytes (page_new 2 2 8)); DataChunksSent 2; QueryState 3; PixelsComplete 3; QueryState 3],
+     Done Manual).
+Proof. vm_compute. reflexivity. Qed.
+
+Theorem C09_plain_source : forall a ps,
+  SourceP.peq (send_pages_with a (map (fun p => ([], p)) ps)) (send_pages a ps)
+  /\ (forall script, run_script (send_pages_with a (map (fun p => ([], p)) ps)) script
+                     = run_script (send_pages a ps) script)
+  /\ (forall b, run_bus (send_pages_with a (map (fun p => ([], p)) ps)) b = run_bus (send_pages a ps) b).
+Proof.
+  intros a ps. pose proof (SourceP.send_pages_with_plain a ps) as H.
+  split; [exact H|]. split; [exact (SourceP.peq_run_script _ _ H) | exact (SourceP.peq_run_bus _ _ H)].
+Qed.
+Print Assumptions C09_plain_source.
